@@ -227,7 +227,7 @@ for _k, _fs in {"C01": ["Interleave", "ApiCtors", "KeyCheck", "ApiClientProof"],
                 "C07": ["Ctors", "IoWrappers"], "C08": ["Ctors", "IoWrappers"], "C09": ["Ctors", "Wrath", "IoWrath"], "C10": ["Ctors"], "C11": ["Ctors"], "C12": ["Ctors", "IoWrappers", "IoWrath", "HelpersVanilla", "HelpersTbc", "Wrath"], "C18": ["MatrixProof"],
                 "C17": ["Integrity"], "C06": ["Digests"], "C05": ["Digests", "Accessors"], "C04": ["KeyCheck"]}.items():
     STEP_FILES[_k] = STEP_FILES.get(_k, []) + [f for f in _fs if f not in STEP_FILES.get(_k, [])]
-for _k, _fs in {"C06": ["Accessors", "Draws"], "C18": ["Accessors"], "C15": ["KeyCheck"], "C01": ["Digests", "Accessors"], "C02": ["Digests", "Accessors"], "C03": ["Digests", "Accessors", "KeyCheck"], "C19": ["KeyCheck"]}.items():
+for _k, _fs in {"C06": ["Accessors", "Draws"], "C18": ["Accessors", "Draws"], "C16": ["Draws"], "C17": ["Draws"], "C15": ["KeyCheck"], "C01": ["Digests", "Accessors"], "C02": ["Digests", "Accessors"], "C03": ["Digests", "Accessors", "KeyCheck"], "C19": ["KeyCheck"]}.items():
     STEP_FILES[_k] = STEP_FILES.get(_k, []) + [f for f in _fs if f not in STEP_FILES.get(_k, [])]
 for _k, _fs in STEP_FILES.items():
     PROPS[_k]["extra_files"] = PROPS[_k]["extra_files"] + ["proofs/steps/%s.v" % f for f in _fs]
